@@ -443,6 +443,10 @@ func (s *Crash) Run(env *core.Env, st *core.Stats) (vs []core.Violation) {
 		return vs
 	}
 	for k := 0; k < len(sf.data); k++ {
+		if k%64 == 63 && core.CapReached() {
+			st.Probe("enumeration-cut-short-by-the-wall-clock-cap")
+			return vs
+		}
 		if !cut(k) {
 			return vs
 		}
